@@ -38,6 +38,10 @@ Next ==
         /\ IF e.quiet = 0 THEN Reject("never_quiescent_rows_lost")
            ELSE IF Cardinality(procd) + e.dropped # Cardinality(emitted) THEN Reject("rows_neither_processed_nor_counted_as_dropped")
            ELSE IF cfg.strategy = "block" /\ e.dropped # 0 THEN Reject("block_strategy_dropped_rows")
+           \* the instance's own accounting (GetStats): every Emit call is counted as input, every processed row of the witness query
+           \* (no WHERE) produced one result that was either handed on or counted as dropped at the output
+           ELSE IF "input" \in DOMAIN e /\ e.input # Cardinality(emitted) THEN Reject("stats_input_count_differs_from_emit_calls")
+           ELSE IF "output" \in DOMAIN e /\ e.output + e.outdrop # Cardinality(procd) THEN Reject("stats_output_counts_differ_from_processed_rows")
            ELSE IF cfg.strategy = "expand" /\ e.cap > cfg.max THEN Reject("buffer_expanded_beyond_maximum")
            ELSE IF cfg.strategy # "expand" /\ e.cap # cfg.data THEN Reject("buffer_capacity_changed")
            ELSE UNCHANGED dead
